@@ -306,10 +306,12 @@ func (m *Mux) Close() error {
 	// registered under the same lock, so no writer can be added after this
 	// point.
 	close(m.done)
-	m.ctxCancelFunc()
+	// Close underlays before cancelling the context, so that sessions can
+	// still send their close requests to the peers.
 	for _, underlay := range m.underlays {
 		underlay.Close()
 	}
+	m.ctxCancelFunc()
 	m.underlays = make([]Underlay, 0)
 	m.mu.Unlock()
 
